@@ -1,6 +1,7 @@
 import Proofs.Trace
 import Proofs.PtrOkTrace
 import Proofs.ClearCrashMid
+import Proofs.HeadlinesAll
 /-! C18 — a torn or truncated write history is refused or opens consistent. The model keeps the
     program-ordered write log; `cutOpen` rebuilds both stores from any prefix of it (plus some bytes of a
     torn append) and applies the open-time checks. Proved so far: exactly the torn appends are refused,
@@ -152,5 +153,15 @@ theorem C18_clear_order_matters : ∃ st, swapDemoCut = .ok st ∧ (st.cell 1).f
     st.links.size = 1 ∧ (st.cell 2).flags.page = true ∧ (st.cell 2).inn = 2 ∧ ¬ LinksOk st := swapped_order_breaks
 
 end ClearCuts
+
+section EveryHistory
+open Traph State Pag Layout
+/-! ### every history (Proofs/Discipline, SinceClear, ReachableAll, HeadlinesAll) -/
+
+/-- EVERY HISTORY, `clear` and `reopen` included, no request assumed away: the only hypotheses are that byte strings cut into at least one stem (`OpWf`), rule anchors are whole LRUs (`rulesCanonical`, `Canon`) and the caller re-supplies on `reopen` the rules the index carries, as the API requires (`Disciplined`); `clear` acts as a reset (`sinceClear`).  -/
+theorem C18_walks_all {s : State} (hs : Reachable s) : Whole s ∧ WalksSafe s s.trie.size :=
+  Traph.C18_walks_all hs
+
+end EveryHistory
 
 end Traph.Props
